@@ -42,6 +42,7 @@ def check(ctx):
   r7(ctx, cls)
   pool_request_paths(ctx)
   config(ctx)
+  config_merge(ctx)
   dead_release_keeps_subscription(ctx)
 
 
@@ -68,6 +69,32 @@ def config(ctx):
     ctx.ob(rule, init, 'self.%s is the configured %s' % (attr, prop), ok, 'self.%s is set from %s' % (attr, [U(v) for v in vals]),
            'the pool bounds concurrency by max_watermark, keeps min_watermark connections cached and queues up to max_queue_len waiters: each bound must come from its own setting '
            '(the defaults are all Int.MaxValue / 1, so a mix-up only shows under a non-default configuration)')
+
+
+def config_merge(ctx, rule='C07.R1'):
+  """The provider lays the caller's keyword arguments over the defaults unconditionally: a configured 0 / empty value is a value (min_watermark=0,
+  max_queue_len=0), not "use the default"."""
+  prog = ctx.prog
+  why = ('a bound configured as 0 (no cached connection, no queueing) must reach the pool as 0: a merge that tests the given value for truth replaces it by the default '
+         '(1 connection kept for ever, an unbounded queue)')
+  for q in ('SinkProviderBase.__init__', 'SinkProviderBase.Clone'):
+    f = prog.func('scales/sink.py', q)
+    kw = f.node.args.kwarg.arg if f.node.args.kwarg else None
+    if kw is None:
+      ctx.ob(rule, f, 'settings are taken as keyword arguments', False, '%s no longer takes **kwargs' % q, why)
+      continue
+    ups = [c for c in ast.walk(f.node) if isinstance(c, ast.Call) and call_attr(c) == 'update' and c.args and U(c.args[0]) == kw]
+    spread = [d for d in ast.walk(f.node) if (isinstance(d, ast.Dict) and any(k is None and U(v) == kw for k, v in zip(d.keys, d.values)))
+              or (isinstance(d, ast.Call) and U(d.func) == 'dict' and any(k.arg is None and U(k.value) == kw for k in d.keywords))]
+    truthy = []
+    for n in ast.walk(f.node):
+      if isinstance(n, ast.BoolOp) and any(isinstance(x, ast.Name) and x.id == kw for x in ast.walk(n.values[0])) and not isinstance(n.values[0], ast.Compare):
+        truthy.append(U(n))
+      elif isinstance(n, (ast.If, ast.IfExp)) and not isinstance(n.test, ast.Compare) and any(isinstance(x, ast.Name) and x.id == kw for x in ast.walk(n.test)) \
+          and (isinstance(n.test, (ast.Call, ast.Subscript)) or (isinstance(n.test, ast.UnaryOp) and isinstance(n.test.operand, (ast.Call, ast.Subscript)))):
+        truthy.append(U(n.test))
+    ctx.ob(rule, f, 'every given setting overrides the default / current value, whatever its truth value', (bool(ups) or bool(spread)) and not truthy,
+           'truth tests on given settings: %s; unconditional merges: %d' % (truthy[:3], len(ups) + len(spread)), why)
 
 
 def r1_r4(ctx, cls):
